@@ -19,6 +19,31 @@ CHECKS = {
          "DESIGN.md 5 (C11), 4.C"),
 }
 
+POOL_NOTE = "stub transport/protocol/connection (SimConn models HttpConnection: is_open = open && (h2 || !busy), can_share = h2); unit of interleaving = one poll/drop of one future; tokio current-thread scheduler and paused clock trusted"
+POOL_TECH = "deterministic simulation: the real pool between stub endpoints, seeded step lists (issue/poll/cancel/dial/handshake/respond/close/background/clock) with fault injection, drain + probe phases; invariants at every hand-off and history checks; delta-debugged replay files"
+def pool(text, ref):
+    return ("poolsim", "exploration", POOL_TECH, text + " Seeded search over schedules and fault sequences, not enumeration: a clean batch is evidence, not proof.", POOL_NOTE, ref)
+CHECKS.update({
+ "C02": pool("At every hand-off of an HTTP/1 connection: no other holder, not busy since its previous exchange, not taken over by an upgrade, exactly one live handle.", "DESIGN.md 5 (C02), 4.A"),
+ "C03": pool("After a fault-free drain (all dials/handshakes/responses resolved, background quiescent, only woken futures polled) every non-cancelled request must be ready; a forced poll distinguishes lost wake-ups from stranded requests; a probe request per origin must then succeed.", "DESIGN.md 5 (C03), 4.A"),
+ "C04": pool("Every transport connect call is attributed to its request and classified from the state at that request's issue step: idle connection present at a quiescent point, HTTP/2 attempt in flight, HTTP/2 connection established; cancelling an unserved request must not destroy idle connections. Ambiguous competition is not judged.", "DESIGN.md 5 (C04), 4.A"),
+ "C05": pool("At every hand-off of a pooled connection: not closed before the request was issued nor before its hand-back; not idle longer than idle_timeout at the issue instant (virtual clock via hook H2), for idle durations on both sides of the limit.", "DESIGN.md 5 (C05), 4.A"),
+ "C06": pool("At every hand-off the (scheme, authority) the connection was dialed for equals the request's, over 2-4 origins that differ only in scheme, port, case or host, with waiters and idle connections alive for several at once.", "DESIGN.md 5 (C06), 4.A"),
+ "C14": pool("After each hand-back / HTTP/2 registration the first request with a provably live waiter must be handed that connection at its very next poll; abandoned attempts complete into the pool (continue_after_preemption) or are dropped at once (otherwise).", "DESIGN.md 5 (C14), 4.A"),
+ "C15": pool("After every step: open idle HTTP/1 connections retained per origin, minus those a pending request could be holding, never exceeds max_idle_per_host in {0,1,2,k-1,k,k+1}.", "DESIGN.md 5 (C15), 4.A"),
+ "C17": pool("Panic monitor (process-wide hook + catch_unwind around every call/poll/drop + background tasks) over step lists that include every http::Version constant, upgrades, cancels, service drop.", "DESIGN.md 5 (C17)"),
+ "C18": ("iosim", "exploration",
+         "deterministic simulation: writer/reader scripts over each adapter stack on SimNet (seeded chunking, Pending injection, virtual delays, pipe capacity, EOF/reset at byte offsets) compared with a reference FIFO",
+         "TokioIo in both directions, Rewind, client/server braid Stream (plain and TLS arms), duplex transport: bytes received are always a prefix of the position-indexed reference stream, nothing beyond what was offered, EOF after shutdown, resets surface as errors, read-buffer contract (pre-filled bytes untouched, no over-report). Seeded search.",
+         "Braid TCP/Unix arms need kernel sockets and are not run; TLS runs with >=32 KiB pipe capacity (smaller socket buffers deadlock any TLS handshake); an endpoint is not used again after it returned an error",
+         "DESIGN.md 5 (C18), 4.D"),
+ "C19": ("timersim+poolsim", "exploration",
+         "deterministic simulation in virtual time: Timeout layer over a scripted inner future (grid enumerated) and over the real pool (deadline landing in every stage of a pooled request), with a follow-up probe",
+         "Resolves at issue+d with the timeout error unless the inner future was ready first (tie: either), inner result unchanged, inner future dropped at resolution and never polled again; over the pool: no hand-off after expiry, probe request to the same origin succeeds.",
+         "tokio paused clock trusted; same stubs as the other pool checks",
+         "DESIGN.md 5 (C19), 4.A, 4.E"),
+})
+
 NOT_APPLICABLE = {
  "C16": "pure function of an address list and a preference (SocketAddrs::sort_preferred / set_port): no schedule, clock, fault or I/O for a simulator to own; the start-order clause is the C11 start-order rule composed with a FIFO pop; the end-to-end variant needs kernel sockets, which have no seam. See DESIGN.md 6.",
  "C20": "pure function of one request and one TlsConnectionInfo (sni::handle): quantifier over inputs only, nothing for deterministic simulation to schedule or fault. See DESIGN.md 6.",
